@@ -77,7 +77,12 @@ def sure_loop_bodies(fn):
         if c is None or c.get("k") != "bin" or c["op"] not in ops:
             continue
         v, k2 = strip(c["l"]), strip(c["r"])
-        if v is None or v.get("k") != "var" or k2 is None or k2.get("k") != "int":
+        if v is None or v.get("k") != "var" or k2 is None:
+            continue
+        ptr_form = False
+        if k2.get("k") == "var" and c["op"] == "<":
+            ptr_form = True       # `for (v = w - e - k; v < w; ..)` with k >= 1 and e unsigned: the body runs at least once
+        elif k2.get("k") != "int":
             continue
         if not b["succ"] or b["succ"][0].get("b") is None:
             continue
@@ -108,6 +113,32 @@ def sure_loop_bodies(fn):
                 elif x is not None and x.get("k") == "decl" and (x.get("var") or {}).get("id") == v.get("id"):
                     r = strip(x.get("init")) if x.get("init") is not None else None
                     init = r["v"] if r is not None and r.get("k") == "int" else None
+            if ptr_form:
+                good = False
+                for el in pb["el"]:
+                    x = strip(el["x"])
+                    if x is not None and x.get("k") == "bin" and x["op"] == "=" and (strip(x["l"]) or {}).get("id") == v.get("id"):
+                        r = strip(x["r"])
+                        consts = 0
+                        unsigned_only = True
+                        while r is not None and r.get("k") == "bin" and r["op"] == "-":
+                            sub = strip(r["r"])
+                            if sub is not None and sub.get("k") == "int":
+                                if sub["v"] < 0:
+                                    unsigned_only = False
+                                consts += sub["v"]
+                            else:
+                                st_ = sub
+                                while st_ is not None and st_.get("k") == "cast":
+                                    st_ = st_["e"]
+                                tt = (sub or {}).get("t", "") + " " + ((st_ or {}).get("t", "") if st_ else "")
+                                if "unsigned" not in tt and "uint" not in tt and "Size" not in tt:
+                                    unsigned_only = False
+                            r = strip(r["l"])
+                        good = r is not None and r.get("k") == "var" and r.get("id") == k2.get("id") and consts >= 1 and unsigned_only
+                if not good:
+                    ok = False
+                continue
             if init is None or not ops[c["op"]](init, k2["v"]):
                 ok = False
         if ok and n_entry:
@@ -115,7 +146,7 @@ def sure_loop_bodies(fn):
     return out
 
 
-def escapes(fn, start, is_pass, exempt_edge=None, is_target=None):
+def escapes(fn, start, is_pass, exempt_edge=None, is_target=None, target_expr=None):
     """Search forward from just after position start=(block id, element index) for a path that reaches a target
     (default: any return / the function exit) without executing an element for which is_pass(expr) holds and without
     taking an edge for which exempt_edge(block, successor position) holds.
@@ -125,11 +156,10 @@ def escapes(fn, start, is_pass, exempt_edge=None, is_target=None):
     sure_pass = set()
     for h, body in sure.items():
         for i, ln, x in block_exprs(fn.bmap[body]):
-            if i != "c" and is_pass(x):
+            # the first thing the body evaluates (statement or branch condition)
+            if is_pass(x):
                 sure_pass.add(h)
-            break_ = x.get("k") == "ret"
-            if break_:
-                break
+            break
     seen = set()
     stack = [(bid0, idx0, [(bid0, None)], frozenset())]
     while stack:
@@ -147,8 +177,13 @@ def escapes(fn, start, is_pass, exempt_edge=None, is_target=None):
             if is_pass(x):
                 passed = True
                 break
+            if target_expr is not None and target_expr(x):
+                hit = ln
+                break
             if x.get("k") == "ret":
-                if is_target is None or is_target(x):
+                if target_expr is not None:
+                    passed = True       # searching for an expression target: a return ends the path
+                elif is_target is None or is_target(x):
                     hit = ln
                 else:
                     passed = True       # a return that is not a target ends the path harmlessly
@@ -160,7 +195,7 @@ def escapes(fn, start, is_pass, exempt_edge=None, is_target=None):
         if bid in sure_pass and (after is None or bid != bid0):
             continue          # a counted loop that certainly runs once and whose body starts with the passing element
         if bid == fn.exit:
-            if is_target is None:
+            if is_target is None and target_expr is None:
                 return path + [(bid, None)]
             continue
         t = b.get("term")
